@@ -498,6 +498,12 @@ func (x *Exec) indexVal(st *State, fr *Frame, v *ssa.Index, pos string) Val {
 		g := and(x.idxGe0(i), x.idxLt(i, x.idxLit(u.Len())))
 		x.oblige(st, "nopanic", "index", pos, g, nil)
 		st.assume(g)
+		if pn, ok := packedArray(base.T); ok {
+			if c, isC := v.Index.(*ssa.Const); isC {
+				return Val{T: v.Type(), K: KScalar, S: x.byteAt(base.S, int(c.Int64()), pn)}
+			}
+			x.unsupported("symbolic index into a packed byte array value")
+		}
 		e := Val{T: v.Type(), K: KScalar, S: sel(base.S, i)}
 		if _, isSig := v.Type().Underlying().(*types.Signature); isSig {
 			e.K = KFunc
